@@ -451,8 +451,10 @@ def handleR (d : DSt) (n : Nat) (pre : List String) : IO DSt := do
     match idS.toNat?, parseSrc srcS, parseTgt tgtS, mkFterm d forS, assign.mapM parseExpr, ignore.mapM parseExpr,
           parseBool? bh with
     | some id, some src, some tgt, some fterm, some as, some is, some bodyHost =>
-      let r : Rule := { src := src, tgt := tgt, name := name, assign := as, ignore := is, fterm := fterm,
-                        fkvar := if fk == "-" then "" else fk, fvvar := if fv == "-" then "" else fv, scope := scope }
+      let loop : Option Loop := fterm.map fun f =>
+        { term := f, kvar := if fk == "-" then "" else fk, vvar := if fv == "-" then "" else fv }
+      if fterm.isNone && (fk != "-" || fv != "-") then return (← bad d n)
+      let r : Rule := { src := src, tgt := tgt, name := name, assign := as, ignore := is, loop := loop, scope := scope }
       return { d with rules := d.rules ++ [{ id := id, rule := r, bodyHost := bodyHost }] }
     | _, _, _, _, _, _, _ => bad d n
   | _ => bad d n
